@@ -310,6 +310,12 @@ def run_program(name, seed, options=None):
             fails.append(('C16', 'unexpected_none', 'a bounded feasible model returned None'))
             return info, fails
         check_sent(pep, w, fails)
+        # constraints the template declared (kept in its handles at declaration time) reach the solver, whatever the library's lists say after the solve
+        sent_ids = {id(o) for _, o in w.sent}
+        for c in h.get('declared', []):
+            if id(c) not in sent_ids:
+                fails.append(('C05', 'sent.declared', 'a constraint declared by the user (%s) was not sent to the solver' % (c.get_name() or type(c).__name__)))
+                break
         tau_p = float(w.prob.value) if options.get('dimension_reduction_heuristic') is None else None
         if tau_p is None:
             tau_p = tau_d
